@@ -481,10 +481,13 @@ Section TotalForce.
     Definition cv_atoms (cv : colvar) : list nat := flat_map (fun p => cvc_atoms (fst p)) (cv_comps cv).
   End Sys.
 
-  (* whether collect_cvc_total_forces adds the Jacobian force *)
-  Definition adds_fj (cv : colvar) : bool := negb (cv_hide cv && (cv_subtract cv || cv_samestep cv)).
-  (* update_forces_energy: f = fb - (hideJacobian ? fj : 0) *)
-  Definition applied_force (cv : colvar) (fb fj : T) : T := if cv_hide cv then fb - fj else fb.
+  (* whether collect_cvc_total_forces adds the Jacobian force; comp = prev_Jacobian_force_compensated: the variable
+     applied the compensating force -fj at the step the (lagged) total force is about *)
+  Definition adds_fj (cv : colvar) (comp : bool) : bool :=
+    negb (cv_hide cv && (cv_subtract cv || cv_samestep cv || negb comp)).
+  (* update_forces_energy: f = fb - fj when the Jacobian is hidden AND a bias applies a force to the variable
+     (apply = f_cv_apply_force: only then is the force communicated to the atoms) *)
+  Definition applied_force (cv : colvar) (apply : bool) (fb fj : T) : T := if cv_hide cv && apply then fb - fj else fb.
 
   (* ------------------------------------------------------------------ one step of colvar::calc +
      update_forces_energy + communicate_forces + end_of_step.
@@ -494,9 +497,10 @@ Section TotalForce.
     st_fj : T;
     st_ft : T;
     st_fold : T;
-    st_rel : nat
+    st_rel : nat;
+    st_comp : bool     (* prev_Jacobian_force_compensated *)
   }.
-  Definition cv_init : cvstate := mkCvstate fzero zero zero zero 0.
+  Definition cv_init : cvstate := mkCvstate fzero zero zero zero 0 false.
 
   Record cvout : Type := mkCvout {
     o_ft : T;          (* ft_reported *)
@@ -504,34 +508,36 @@ Section TotalForce.
     o_forces : field   (* atoms_new_colvar_forces *)
   }.
 
-  Definition cv_step (mass : nat -> T) (cv : colvar) (s : cvstate) (pos F : field) (fb : T) : cvstate * cvout :=
+  Definition cv_step (mass : nat -> T) (cv : colvar) (s : cvstate) (pos F : field) (fb : T) (apply : bool) : cvstate * cvout :=
     let measured_lagged := negb (cv_samestep cv) && (0 <? st_rel s)%nat in
     (* lagged: calc_cvc_total_force + collect_cvc_total_forces before the values of this step *)
     let ft1 :=
       if cv_samestep cv then st_ft s
       else if measured_lagged
-           then cv_proj mass (st_prev_pos s) cv F + (if adds_fj cv then st_fj s else zero)
+           then cv_proj mass (st_prev_pos s) cv F + (if adds_fj cv (st_comp s) then st_fj s else zero)
            else st_ft s in
     let fj := cv_fj mass pos cv in
     (* same step: after the values and Jacobians of this step *)
     let ft2 :=
-      if cv_samestep cv then cv_proj mass pos cv F + (if adds_fj cv then fj else zero) else ft1 in
+      if cv_samestep cv then cv_proj mass pos cv F + (if adds_fj cv (st_comp s) then fj else zero) else ft1 in
     (* calc_colvar_properties *)
     let ft3 :=
       if cv_subtract cv && negb (cv_samestep cv) && measured_lagged then ft2 - st_fold s else ft2 in
-    let f := applied_force cv fb fj in
-    let fold := if cv_subtract cv then f else st_fold s in
-    (mkCvstate pos fj ft3 fold (S (st_rel s)), mkCvout ft3 f (cv_apply mass pos cv f)).
+    let f := applied_force cv apply fb fj in
+    let fold := if cv_subtract cv then f else st_fold s in      (* end_of_step, at every step *)
+    (* communicate_forces runs only while a bias applies a force to the variable *)
+    (mkCvstate pos fj ft3 fold (S (st_rel s)) (cv_hide cv && apply),
+     mkCvout ft3 f (if apply then cv_apply mass pos cv f else fzero)).
 
   (* ------------------------------------------------------------------ the engine (harness/vsim.h step()):
      positions and its own forces per step; in the lagged convention it hands over the force that acted at
      the previous step, including (includecv) the forces Colvars applied then. *)
-  Record einput : Type := mkEinput { e_pos : field; e_force : field; e_fb : T }.
+  Record einput : Type := mkEinput { e_pos : field; e_force : field; e_fb : T; e_apply : bool }.
   Record estate : Type := mkEstate { es_cv : cvstate; es_prev_total : field }.
   Definition eng_init : estate := mkEstate cv_init fzero.
   Definition eng_step (mass : nat -> T) (cv : colvar) (includecv : bool) (s : estate) (i : einput) : estate * cvout :=
     let F := if cv_samestep cv then e_force i else es_prev_total s in
-    let '(cs, out) := cv_step mass cv (es_cv s) (e_pos i) F (e_fb i) in
+    let '(cs, out) := cv_step mass cv (es_cv s) (e_pos i) F (e_fb i) (e_apply i) in
     (mkEstate cs (if includecv then fadd (e_force i) (o_forces out) else e_force i), out).
   Fixpoint eng_run (mass : nat -> T) (cv : colvar) (includecv : bool) (s : estate) (l : list einput) : estate * list cvout :=
     match l with
